@@ -93,6 +93,20 @@ class SimEndpoint(object):
         return "<SimEndpoint %s:%s>" % (self.host, self.port)
 
 
+class _ByteCount(object):
+    """stands in for a growing byte string of which only the length is used"""
+
+    def __init__(self):
+        self.n = 0
+
+    def __iadd__(self, chunk):
+        self.n += len(chunk)
+        return self
+
+    def __len__(self):
+        return self.n
+
+
 class SimTransport(object):
     disconnecting = False
     disconnected = False
@@ -158,7 +172,7 @@ class Conn(object):
         self.frames_written = []  # every complete frame the client wrote: (step, time, bytes)
         self.frames_processed = []  # frames the peer has processed
         self.s2c = []  # chunks (bytes) not yet delivered
-        self.delivered = bytearray()  # everything handed to dataReceived
+        self.delivered = _ByteCount()  # how much was handed to dataReceived (only the amount is ever needed; multi-megabyte fetch replies add up)
         self.client_closed = False  # client called loseConnection
         self.client_closed_step = None
         self.dropped = False  # network / peer killed it
